@@ -424,9 +424,182 @@ def _with_ref_types(rows, d, seed):
     return out
 
 
+# --- owner-C20 round 8: array / defaulted attributes --------------------------------------------------------------
+# What BridgePoint stores for `samples : real[4] = 0.0`: O_ATTR.Dimensions = '[4]', one S_DIM row per dimension related
+# across R120 (elementCount 0 = unbounded), O_ATTR.DefaultValue.  Older model files carry the Dimensions string only,
+# hand-made ones S_DIM rows only.  None of this is part of the diagram: an array attribute of a supported type is still
+# an attribute of that type, named as modeled.
+DIMENSIONS = [[4], [2, 3], [0], [1], [16, 0], [3, 3, 3]]
+DEFAULT_VALUES = ['0', '4', '0.0', '"text"', 'true', 'Colour::red', ' ', '-1']
+
+
+def _dims_text(counts):
+    return ''.join('[%s]' % (n if n else '') for n in counts)
+
+
+def _s_dim_values(obj_id, attr_id, count, idx, dim_id):
+    cols = [c[0] for c in tables()['S_DIM']]
+    v = [0] * len(cols)
+    for k, x in (('elementCount', count), ('dimensionCount', idx), ('Obj_ID', obj_id), ('Attr_ID', attr_id),
+                 ('DIM_ID', dim_id)):
+        v[cols.index(k)] = x
+    return v
+
+
+def _array_choice(rnd):
+    """(Dimensions string, S_DIM counts, DefaultValue) of one attribute: string and rows, string only, rows only, none"""
+    x = rnd.random()
+    counts = rnd.choice(DIMENSIONS) if x < 0.6 else []
+    text = _dims_text(counts) if x < 0.45 else ''
+    rows = counts if (x < 0.3 or 0.45 <= x < 0.6) else []
+    return text, rows, (rnd.choice(DEFAULT_VALUES) if rnd.random() < 0.3 else '')
+
+
+def _with_arrays(rows, seed):
+    """the same rows, but attributes are dimensioned (Dimensions string and / or S_DIM rows across R120) and carry default
+    values; data types carry default values"""
+    import random
+    rnd = random.Random(seed)
+    cols = [c[0] for c in tables()['O_ATTR']]
+    out, dim_id = [], (1 << 52)
+    for t, v in rows:
+        if t == 'O_ATTR':
+            text, counts, dv = _array_choice(rnd)
+            v = list(v)
+            v[cols.index('Dimensions')], v[cols.index('DefaultValue')] = text, dv
+            out.append((t, v))
+            for idx, n in enumerate(counts):
+                dim_id += 1
+                out.append(('S_DIM', _s_dim_values(v[1], v[0], n, idx, dim_id)))
+            continue
+        if t == 'S_DT' and rnd.random() < 0.3:
+            v = list(v)
+            v[[c[0] for c in tables()['S_DT']].index('DefaultValue')] = rnd.choice(DEFAULT_VALUES)
+        out.append((t, v))
+    return out
+
+
+def pop_dimension(m, o_attr, text, counts, dv=None):
+    """dimension one attribute of a LOADED population (rows already related to it across R120 are removed first)"""
+    import xtuml
+    for s_dim in list(xtuml.navigate_many(o_attr).S_DIM[120]()):
+        xtuml.delete(s_dim)
+    o_attr.Dimensions = text
+    if dv is not None:
+        o_attr.DefaultValue = dv
+    for idx, n in enumerate(counts):
+        xtuml.relate(m.new('S_DIM', elementCount=n, dimensionCount=idx), o_attr, 120)
+
+
+def pop_set_arrays(m, seed):
+    """dimensions and default values on a LOADED population (real models)"""
+    import random
+    rnd = random.Random(seed)
+    for o_attr in m.select_many('O_ATTR'):
+        text, counts, dv = _array_choice(rnd)
+        pop_dimension(m, o_attr, text, counts, dv)
+# --- end owner-C20 round 8 -----------------------------------------------------------------------------------------
+
+
+# --- owner-C14 round 8: the columns of the populated ooaofooa classes that are NO part of the class diagram -------------
+# (no identifier, no referential attribute, not read by `decode`): a BridgePoint model holds any value there - the
+# multiplicity of the associative class of a linked relationship (R_ASSR.Mult: the `{*}` on the link class; the
+# multiplicities an association mirrors are those of the ENDS R_AONE / R_AOTH), the multiplicity of a component
+# (C_C.Mult), class names and numbers beside the key letters, prefix / root of an attribute name (kept consistent with the
+# persisted O_ATTR.Name), default values, parse status and dialect of a derived attribute's action, the name columns
+# BridgePoint caches on O_REF / O_RATTR / O_OIDA (stale after an edit), visibility, number ranges.  Nothing a component
+# mirrors may depend on them.  Every cell is a function of (seed, table, the leading id columns, column), so a diagram
+# that shrinks keeps the values of the rows that remain.
+UNMIRRORED = {
+    'PE_PE': {'Visibility': [0, 1, 2]},
+    'EP_PKG': {'Num_Rng': [0, 1, 100]},
+    'C_C': {'Mult': [0, 1], 'isRealized': [0, 1], 'Realized_Class_Path': 'text', 'Key_Lett': 'name'},
+    'S_DT': {'DefaultValue': 'text'},
+    'S_UDT': {'Gen_Type': [0, 1, 2], 'Definition': 'text'},
+    'O_OBJ': {'Name': 'name', 'Numb': [0, 1, 2, 3, 7, 100]},
+    'O_ATTR': {'Prefix': 'prefix', 'DefaultValue': 'text'},
+    'O_DBATTR': {'Action_Semantics_internal': 'action', 'Suc_Pars': [0, 1, 2, 3], 'Dialect': [-1, 0, 1, 2, 3]},
+    'O_RATTR': {'Ref_Mode': [0, 1], 'BaseAttrName': 'name'},
+    'O_REF': {'Is_Cstrd': [0, 1], 'RObj_Name': 'name', 'RAttr_Name': 'name', 'Rel_Name': 'name'},
+    'O_OIDA': {'localAttributeName': 'name'},
+    'R_ASSR': {'Mult': [0, 1]},
+    'R_COMP': {'Rel_Chn': 'text'},
+}
+_UNMIRRORED_TEXT = ['', '0', '1', 'true', 'a.b::c', 'R1->R2', 'many', 'Zz']
+_UNMIRRORED_ACTION = ['', 'self.Zz = 1;', 'return 1;', 'select many zs from instances of Zz;']
+
+
+def _cell(seed, table, key, col, n):
+    import hashlib
+    h = hashlib.sha1(('%s|%s|%s|%s' % (seed, table, key, col)).encode()).digest()
+    return int.from_bytes(h[:6], 'big') % n
+
+
+def _unmirrored_values(seed, table, get, pool):
+    """{column: value} for one row; `get(column)` reads the row as it is"""
+    cols = tables()[table]
+    key = ','.join(str(get(name)) for name, ty in cols[:2] if ty == 'UNIQUE_ID')
+    out = {}
+    for col, spec in sorted(UNMIRRORED.get(table, {}).items()):
+        if _cell(seed, table, key, col + '?', 4) == 0:
+            continue                                    # one cell in four stays as it is
+        if isinstance(spec, list):
+            out[col] = spec[_cell(seed, table, key, col, len(spec))]
+        elif spec == 'text':
+            out[col] = _UNMIRRORED_TEXT[_cell(seed, table, key, col, len(_UNMIRRORED_TEXT))]
+        elif spec == 'action':
+            out[col] = _UNMIRRORED_ACTION[_cell(seed, table, key, col, len(_UNMIRRORED_ACTION))]
+        elif spec == 'name':
+            out[col] = pool[_cell(seed, table, key, col, len(pool))]
+        elif spec == 'prefix':
+            # Pfx_Mode 0: no prefix (the Prefix column is not used: any text), 1: Name = Prefix + Root_Nam
+            name = get('Name') or ''
+            cut = _cell(seed, table, key, 'cut', max(1, len(name)))
+            if cut == 0:
+                out.update(Pfx_Mode=0, Prefix=pool[_cell(seed, table, key, col, len(pool))], Root_Nam=name)
+            else:
+                out.update(Pfx_Mode=1, Prefix=name[:cut], Root_Nam=name[cut:])
+    return out
+
+
+def _name_pool(names):
+    return sorted({n for n in names if isinstance(n, str)}) + ['Zz_other', '']
+
+
+def _with_unmirrored(rows, seed):
+    """the same rows with other values in the columns that are no part of the diagram (see UNMIRRORED)"""
+    pool = _name_pool(v[[c[0] for c in tables()[t]].index(col)] for t, v in rows for col in ('Name', 'Key_Lett')
+                      if col in [c[0] for c in tables()[t]])
+    out = []
+    for t, v in rows:
+        if t in UNMIRRORED:
+            names = [c[0] for c in tables()[t]]
+            v = list(v)
+            for col, val in _unmirrored_values(seed, t, lambda c: v[names.index(c)], pool).items():
+                v[names.index(col)] = val
+        out.append((t, v))
+    return out
+
+
+def pop_set_unmirrored(m, seed):
+    """the same on a LOADED population (real models): plain attribute assignments"""
+    pool = _name_pool([x.Key_Lett for x in m.select_many('O_OBJ')] + [x.Name for x in m.select_many('O_ATTR')] +
+                      [x.Name for x in m.select_many('C_C')])
+    for t in sorted(UNMIRRORED):
+        types = dict(tables()[t])
+        for inst in m.select_many(t):
+            for col, val in _unmirrored_values(seed, t, lambda c: getattr(inst, c), pool).items():
+                setattr(inst, col, bool(val) if types[col] == 'BOOLEAN' else val)
+# --- end owner-C14 round 8 -----------------------------------------------------------------------------------------
+
+
 def encode(d, rng=None):
     """the .xtuml text of a diagram; the INSERT statements are shuffled when an rng is given"""
     rows = rows_of(d)
+    if d.get('unmirrored') is not None:                 # --- owner-C14 round 8
+        rows = _with_unmirrored(rows, d['unmirrored'])
+    if d.get('arrays') is not None:                     # --- owner-C20 round 8
+        rows = _with_arrays(rows, d['arrays'])
     if d.get('descr') is not None:
         rows = _with_descriptions(rows, d['descr'])
     if d.get('ref_types') is not None:
@@ -703,7 +876,10 @@ def diagram_sexp(d):
           [[i['num'], list(i['attrs'])] for i in c['idents']], _p_sexp(c['parent'])] for c in d['classes']],
         [[r['id'], r['numb'], kind_rel(r['kind']), _p_sexp(r['parent'])] for r in d['rels']],
     ] + ([[[x[0], [x[1]['id'], x[1]['name'], [Sym(x[1]['kind'][0])] + list(x[1]['kind'][1:])]] for x in d.get('loose', [])]]
-         if (d.get('loose') or d.get('rows')) else []) + ([[_rowrel_sexp(r) for r in d['rows']]] if d.get('rows') else [])
+         if (d.get('loose') or d.get('rows') or d.get('pkgrefs')) else []) + (
+        [[_rowrel_sexp(r) for r in d.get('rows') or []]] if (d.get('rows') or d.get('pkgrefs')) else []) + (
+        # --- pkgref-in-model: the EP_PKGREF rows (referring, referred) as the optional 7th element
+        [[[x[0], x[1]] for x in d['pkgrefs']]] if d.get('pkgrefs') else [])
 
 
 def _rowrel_sexp(r):
@@ -1680,7 +1856,73 @@ def add_package_references(rng, d, fresh, to_global=True):
         d['containers'].append(stub)
         d.setdefault('pkgrefs', []).append([stub['id'], p['id']])
         gained.append(c['name'])
+    # --- pkgref-in-model begin: up to two further reference rows (own PRNG stream: the choices above stay what they were)
+    if gained and hasattr(rng, 'fork'):
+        _more_package_references(rng.fork('pkgref-extra'), d, fresh, to_global, comps, gained)
+    # --- pkgref-in-model end
     return d, gained
+
+
+# --- pkgref-in-model begin
+def walk_acyclic(d):
+    """is the graph that is_contained_in walks free of cycles: container -> its parent, referred package -> the parent of each
+    package referring to it (both packages existing; first row of an id, as the Lean model's findContainer)"""
+    cont = {}
+    for k in d['containers']:
+        cont.setdefault(('comp' if k['comp'] else 'pkg', k['id']), k)
+
+    def succ(node):
+        k = cont.get(node)
+        if k is None:
+            return []
+        out = [tuple(k['parent'])] if k['parent'] else []
+        if node[0] == 'pkg':
+            for q, p in d.get('pkgrefs', []):
+                kq = cont.get(('pkg', q))
+                if p == node[1] and kq is not None and kq['parent']:
+                    out.append(tuple(kq['parent']))
+        return out
+    state = {}
+
+    def visit(n):
+        if state.get(n) == 1:
+            return False
+        if state.get(n) == 2:
+            return True
+        state[n] = 1
+        ok = all(visit(x) for x in succ(n))
+        state[n] = 2
+        return ok
+    return all(visit(n) for n in list(cont))
+
+
+def _more_package_references(x, d, fresh, to_global, comps, gained):
+    """0-2 further EP_PKGREF rows, each from its own fresh (empty) package - Referring_Package_ID is the identifier of
+    EP_PKGREF - placed anywhere (inside a component, inside a package, at the top) and referring to any package: a second
+    referrer of the same package, a reference from OUTSIDE every component (adds nothing), a reference to a nested or an
+    already contained package, chains reference -> containment -> reference.  A row that would close a cycle is dropped
+    (is_contained_in would not return).  `gained` grows by the components that gained content."""
+    def content(c):
+        return sorted((kind, it['id']) for kind in ('classes', 'dts', 'rels') for it in d[kind]
+                      if py_contained(d, c['id'], it['parent']))
+    for n in range(x.choice([0, 1, 1, 2])):
+        pkgs = [k for k in d['containers'] if not k['comp'] and (to_global or not py_global(d, ['pkg', k['id']]))]
+        if not pkgs:
+            break
+        target = x.choice(pkgs)
+        host = x.choice([None] + [['comp', k['id']] for k in comps] * 2 + [['pkg', k['id']] for k in d['containers'] if not k['comp']])
+        before = {c['name']: content(c) for c in comps}
+        stub = {'comp': False, 'id': fresh(), 'name': 'Ref%d_to_%s' % (n + 2, target['name']), 'parent': host}
+        d['containers'].append(stub)
+        d['pkgrefs'].append([stub['id'], target['id']])
+        if not walk_acyclic(d):
+            d['containers'].pop()
+            d['pkgrefs'].pop()
+            continue
+        for c in comps:
+            if content(c) != before[c['name']] and c['name'] not in gained:
+                gained.append(c['name'])
+# --- pkgref-in-model end
 
 
 def _encloses(d, pkg, comp):
@@ -1941,11 +2183,13 @@ def py_apply_xedit(d, e):
     k = e[0]
     if k in ('rename', 'retype', 'move-class'):
         return py_apply_edit(d, e)
+    if k == 'redim':                                    # --- owner-C20 round 8: dimensions are no part of the diagram
+        return d
     d = copy.deepcopy(d)
     if k == 'add-attr':
         for c in d['classes']:
             if c['id'] == e[1]:
-                c['attrs'].append(copy.deepcopy(e[2]))
+                c['attrs'].append({x: copy.deepcopy(y) for x, y in e[2].items() if x != 'dims'})
     elif k == 'add-enum':
         for t in d['dts']:
             if t['id'] == e[1] and t['kind'][0] == 'enum':
@@ -2007,6 +2251,10 @@ def pop_apply_xedit(m, e):
                 xtuml.relate(m.new('O_NBATTR'), o_battr, 107)
             else:
                 xtuml.relate(m.new('O_DBATTR', Action_Semantics_internal='', Suc_Pars=0, Dialect=0), o_battr, 107)
+        if a.get('dims') is not None:                   # --- owner-C20 round 8: the added attribute is an array
+            pop_dimension(m, o_attr, *a['dims'])
+    elif k == 'redim':                                  # --- owner-C20 round 8: [redim, cls, attr, text, counts]
+        pop_dimension(m, m.select_any('O_ATTR', where(Attr_ID=e[2], Obj_ID=e[1])), e[3], e[4])
     elif k == 'add-enum':
         s_edt = m.select_any('S_EDT', where(DT_ID=e[1]))
         last = xtuml.navigate_any(s_edt).S_ENUM[27](lambda s: not one(s).S_ENUM[56, 'precedes']())
@@ -2048,7 +2296,15 @@ def pop_apply_xedit(m, e):
 def gen_xedit(rng, d, fresh):
     """one random XSD-relevant edit applicable to `d`; `fresh()` yields unused identifiers"""
     for _ in range(20):
-        k = rng.choice(['rename', 'retype', 'add-attr', 'add-attr', 'add-enum', 'perm-enums', 'add-type', 'move-class'])
+        k = rng.choice(['rename', 'retype', 'add-attr', 'add-attr', 'add-enum', 'perm-enums', 'add-type', 'move-class',
+                        'redim'])
+        if k == 'redim':                                # --- owner-C20 round 8: (re-)dimension an attribute, or make it scalar
+            cands = [(c, x) for c in d['classes'] for x in c['attrs']]
+            if cands:
+                c, x = rng.choice(cands)
+                text, counts, _ = _array_choice(rng)
+                return ['redim', c['id'], x['id'], text, counts]
+            continue
         if k in ('rename', 'move-class'):
             e = gen_edit(rng, d, None, [k])
             if e is not None:
@@ -2080,7 +2336,10 @@ def gen_xedit(rng, d, fresh):
                 kind = ['derived', rng.choice(d['dts'])['id']]
             else:
                 kind = ['base', rng.choice(d['dts'])['id']]
-            return ['add-attr', c['id'], {'id': fresh(), 'name': name, 'kind': kind}]
+            new = {'id': fresh(), 'name': name, 'kind': kind}
+            if rng.random() < 0.4:                      # --- owner-C20 round 8: the added attribute is an array
+                new['dims'] = list(_array_choice(rng))
+            return ['add-attr', c['id'], new]
         elif k in ('add-enum', 'perm-enums'):
             enums = [t for t in d['dts'] if t['kind'][0] == 'enum']
             if not enums:
